@@ -3,12 +3,12 @@ CONSTANTS
   Sub = {"B", "C"}
   Res = {"p1", "p2"}
   TopRes = {"p1", "p2"}
-SPECIFICATION Spec
+SPECIFICATION MCSpec
 INVARIANT TypeOK
 INVARIANT C01_Clean
 INVARIANT C01_Vrps
 INVARIANT C02_NoOverclaim
-PROPERTY C02_IssuedWithinEntitlement
+PROPERTY MC_IssuedWithinEntitlement
 INVARIANT C02_Converged
 INVARIANT C04_KeysHaveCerts
 INVARIANT C04_PubKeysMatch
@@ -17,3 +17,5 @@ CONSTANTS
   Roa <- MCRoa1
   ParentOf <- Chain
   Ops = {"res", "suspend", "remove", "delete"}
+CONSTANTS
+  MaxApi = 12
